@@ -71,9 +71,9 @@ theorem interLoop_good {a b target : Ty} (wa : wf a = true) (wb : wf b = true) :
             leastFor_F _ o p s b hs wo wp wb ob pb⟩
     · exact interLoop_good wa wb ps out res hps hg h
 
-/-- **TypeIntersection(a, b) is contained in both a and b** (well-formed operands) -/
+/-- **TypeIntersection(a, b) is contained in both a and b** and well formed (well-formed operands) -/
 theorem typeInter_sub {a b c : Ty} (wa : wf a = true) (wb : wf b = true) (h : typeInter a b = some (some c)) :
-    c.is a = .is ∧ c.is b = .is := by
+    wf c = true ∧ c.is a = .is ∧ c.is b = .is := by
   unfold typeInter at h
   cases h1 : interLoop b none (prims a) with
   | none => simp [h1] at h
@@ -83,7 +83,7 @@ theorem typeInter_sub {a b c : Ty} (wa : wf a = true) (wb : wf b = true) (h : ty
       (fun p hp => ⟨(prims_spec hp).2 wa, fun hsel => ⟨(prims_spec hp).1, hsel⟩⟩) (by intro o ho; cases ho) h1
     have g2 : GoodOut a b (some c) := interLoop_good wa wb (prims b) out (some c)
       (fun p hp => ⟨(prims_spec hp).2 wb, fun hsel => ⟨hsel, (prims_spec hp).1⟩⟩) g1 h
-    exact (g2 c rfl).2
+    exact g2 c rfl
 
 end Ty
 end Octo
